@@ -103,6 +103,9 @@ pub struct Runner<'a> {
     /// an injected I/O fault has hit a write: the byte-exact journal prediction no longer applies
     pub faulted: bool,
     pub faults_seen: usize,
+    /// the remaining pre-generated steps no longer fit the state (a fault cut a batch short): end the history,
+    /// the final flush + restart still applies
+    pub cut_short: bool,
     inst: u32,
 }
 
@@ -116,7 +119,7 @@ impl<'a> Runner<'a> {
             Ok(s) => s,
             Err(o) => return Err(viol("C01", "open_empty_dir", format!("open of an empty directory: {}", o.brief()), case, 0)),
         };
-        Ok(Runner { case, st, m: Model::new(), j: RefJournal::new(&case.cfg), stats: RunStats::default(), r: Rng::new(case.seed ^ 0xabcdef), step_ix: 0, check_each: true, stop: false, faulted: false, faults_seen: 0, inst: 1 })
+        Ok(Runner { case, st, m: Model::new(), j: RefJournal::new(&case.cfg), stats: RunStats::default(), r: Rng::new(case.seed ^ 0xabcdef), step_ix: 0, check_each: true, stop: false, faulted: false, faults_seen: 0, cut_short: false, inst: 1 })
     }
 
     fn v(&self, prop: &str, sig: &str, text: String) -> Viol {
@@ -366,6 +369,10 @@ impl<'a> Runner<'a> {
                                 // the failure was not at the rotation this model predicts: stop predicting bytes
                                 self.faulted = true;
                             }
+                            if applied < recs.len() {
+                                // a batch cut short: the rest of the pre-generated history no longer fits the state
+                                self.cut_short = true;
+                            }
                         } else {
                             return Err(self.v("C01", "accepted_write_refused", format!("specification accepts, store returned Err({})", e)));
                         }
@@ -410,6 +417,7 @@ impl<'a> Runner<'a> {
                     } else if applied > 0 {
                         self.faulted = true;
                     }
+                    self.cut_short = true;
                     return Ok(());
                 }
                 for r in &recs {
@@ -651,7 +659,7 @@ pub fn run_case(case: &HistCase, check_each: bool, final_restart: bool) -> (RunS
                     res = Some(v);
                     break;
                 }
-                if r.stop {
+                if r.stop || r.cut_short {
                     break;
                 }
             }
